@@ -41,6 +41,10 @@ CLAIMED = {
   "Deductive proof for the scalar numeric classes: class order (Order: boolean < number < string < date); Equal across *smi / SuInt64 / SuDnum is exact integer equality when both sides are integers and field-wise equality between decimals; Equal implies equal Hash for every pair of numeric representations (integer-valued decimals hash like integers); Compare returns +-2 across classes, the exact integer order within integers and between an integer and an exactly-integer decimal, hence agrees with Equal; symmetry lemma for int/decimal equality.",
   "Scope: numbers (three representations), class order of booleans/strings/dates via Order. NOT covered: SuStr/SuConcat/SuExcept comparisons, dates/timestamps order (see C33), objects and records (deepCompare, recursive), member lookup in SuObject itself (hash map). The corner of decimals with exponent 19 and coefficient >= 9223372036854775 (which ToInt64 rejects although some fit int64) is excluded by the contracts and stated as such. Assumed: same interface contracts and *smi abstraction as C26. Two genuine defects found here were fixed (known_findings.jsonl).",
   "DESIGN.md §4 C28"),
+ "C41": (
+  "Authorization as a ghost permission, discharged deductively over the real server code: every protected operation (all IDbms methods of DbmsLocal outside the allowed set, and the package-level Token/kill/connections) requires the permission 'authz', which no command handler can establish; all 40 protocol command handlers and the session helpers are symbolically executed (calls by contract, everything else havoced) and every call they make is shown not to need the permission, i.e. they reach protected state only through ss.sc.dbms, where every refused DbmsUnauth method is proved never to return normally (and to call nothing); cmdAuth leaves the connection wrapped unless authentication succeeded; the nonce is single-use (cleared on every attempt); AuthUser rejects the empty nonce.",
+  "Permission mode ('nosafety'): only permission preconditions, post-conditions and refusals are obligations; run-time safety of the handlers is not checked here. Assumed: the DbmsLocal methods and Token/kill/connections are classified by hand from the property statement (allowed: Auth, Nonce, SessionId, Libraries, LibGet, end of session); DbmsUnauth.Use/Unuse/Close delegate but no protocol command reaches them (an interface-level precondition keeps it so); AuthToken (token single use), crypto/rand, sha1, the users table lookup and the rate limiter are trusted; mutual exclusion of sessions and interleavings with other connections are not modelled; TLS not covered. The wrapper bypass of cmdToken/cmdKill/cmdConnections found by these obligations was fixed.",
+  "DESIGN.md §4 C41"),
 }
 
 NA = {
